@@ -155,6 +155,15 @@ def run(ctx):
         ctx.distinct(("clipwsel", pw, tuple(rn["args"]), str(rn.get("env"))))
         if r.cls != "ok" or r.stdout.decode().strip() != w:
             ctx.violation("cli-password-with-selector", dict(op="hdwallet " + " ".join(rn["args"]), env=rn.get("env"), passphrase=pw, selector=sel), w, str(r)[:200])
+    # a passphrase that is not Unicode text (invalid UTF-8 in argv) has no NFKD form: refused, never read "approximately"
+    bad8 = [b"caf\xe9", b"caf\xe8", b"\xff\xfe", b"ok\x80", b"\xc3", b"\xed\xa0\x80", b"\xf8\x88\x80\x80\x80"]
+    runs8 = [dict(args=["export", "--mnemonic", ph0, b"--password=" + b]) for b in bad8] + [dict(args=["export", "--mnemonic", ph0, "--password", b]) for b in bad8]
+    for rn, r in zip(runs8, ctx.cli(runs8)):
+        ctx.count("cli/password-not-utf8")
+        ctx.distinct(("pw8", rn["args"][-1], len(rn["args"])))
+        if r.cls != "error" or r.stdout != b"":
+            ctx.violation("cli-password-not-utf8-refused", dict(op="hdwallet export --password <bytes>", passphrase_bytes=(rn["args"][-1] if isinstance(rn["args"][-1], bytes) else b"").hex()),
+                          "error, nothing printed", str(r)[:200])
     # CLI: --password reaches the seed (export differs with/without, equal for NFKD-equivalent spellings)
     ph = cases[5][1]
     res = ctx.cli([dict(args=["export", "--mnemonic", ph]), dict(args=["export", "--mnemonic", ph, "--password", "é"]),
